@@ -99,6 +99,23 @@ at position `RegionEnd` — hence for every residue of the length modulo 70 and 
 theorem parse_build (x : Gff) (h : wfBuild x = true) : parse (build x) = .ok (expected x) :=
   parse_buildWith (buildBreak x.regionEnd) x h
 
+/-- a one-feature record whose seqid begins with `#` -/
+def hashSeqidRecord : Gff :=
+  { name := ['s'], gffVersion := ['3'], regionStart := 1, regionEnd := 4, seq := "ACGT".toList,
+    features := [{ name := ['#', 'x'], source := ['p'], type := ['g'], start := 0, stop := 4, score := ['.'], strand := ['+'],
+                   phase := ['.'], attrs := [(['I', 'D'], ['a'])] }] }
+
+/-- **Known finding C14-hash-seqid**, kernel-checked on the model: over the quantifier as worded
+(`wfBuildQ`: seqids free of white space, nothing said about `#`) `parse_build` is false — `Build`
+writes the seqid `#x` unescaped, `Parse` skips the line as a comment: one feature in, none out.
+`parse_build` above is the clause under the hypothesis `wfBuild`, which excludes exactly this class
+(`wfBuild x` is `wfBuildQ x` and no seqid beginning with `#`). -/
+theorem hash_seqid_witness : ¬ (∀ x : Gff, wfBuildQ x = true → parse (build x) = .ok (expected x)) := by
+  intro h
+  have h1 : wfBuildQ hashSeqidRecord = true := by decide
+  have h2 : (parse (build hashSeqidRecord) = .ok (expected hashSeqidRecord)) = False := by decide
+  exact h2 ▸ h hashSeqidRecord h1
+
 /-- a record all of whose printed fields are set -/
 def allSet (x : Gff) : Bool :=
   !x.name.isEmpty && x.regionStart != 0 && x.regionEnd != 0
